@@ -336,7 +336,7 @@ def load_api(only_auth=False):
     api["pub_of_seed"] = pub_of_seed
     # the same operations under the names the Gallina RFC 8032 specification is dispatched by (model side: no oracle table)
     # the function of common.py named by the first argument, applied to the second: the implementation side of the interpreted source
-    api["src_run"] = lambda name, a: getattr(C, name)(a)
+    api["src_run"] = lambda name, a: (getattr(C, name, None) or getattr(S, name))(a)
     api["rfc8032_pub"] = lambda seed, _: C.PublicKey.to_bytes(C.PrivateKey.from_bytes(seed).public_key())
     api["rfc8032_sign"] = lambda seed, msg: C.PrivateKey.from_bytes(seed).sign(msg)
 
